@@ -165,6 +165,7 @@ fn path_op_arg_class(op: &PathOp) -> String {
 		PathOp::Push(s) | PathOp::SymPush(s) => seg_class(s).to_string(),
 		PathOp::SymAppend(items, mode) => {
 			let mut cs: Vec<&str> = effective_items(items, *mode).iter().map(|s| seg_class(s)).collect();
+			cs.sort();
 			cs.dedup();
 			let m = match mode {
 				IterMode::Normal => "",
@@ -1607,6 +1608,8 @@ pub fn gen_step(rng: &mut Rng, cfg: &RunCfg, prop: Prop, kind: Kind, cur: &[u8])
 }
 
 pub struct RunResult {
+	/// the buffer text at the end of the run (part of the per-run digest)
+	pub final_text: Vec<u8>,
 	pub trace: Trace,
 	pub violation: Option<Violation>,
 	pub nontrivial: bool,
@@ -1623,7 +1626,7 @@ pub fn run_one(prop: Prop, run_seed: u64, thorough: bool, stats: &mut Stats) -> 
 		Some(e) => e,
 		None => {
 			stats.hit("runs_discarded_at_start");
-			return RunResult { trace, violation: None, nontrivial: false, steps: 0 };
+			return RunResult { final_text: Vec::new(), trace, violation: None, nontrivial: false, steps: 0 };
 		}
 	};
 	stats.hit(match init.route {
@@ -1665,7 +1668,7 @@ pub fn run_one(prop: Prop, run_seed: u64, thorough: bool, stats: &mut Stats) -> 
 		Prop::C04 => ex.mutated,
 		_ => ex.nontrivial,
 	};
-	RunResult { trace, violation, nontrivial, steps }
+	RunResult { final_text: ex.text().to_vec(), trace, violation, nontrivial, steps }
 }
 
 /// Re-executes a concrete trace. `Err(())`: the trace is not executable.
